@@ -442,6 +442,10 @@ func Explore(ctx *xplor.Ctx, net nk.Net, sc Scenario, oracle Oracle, maxStates i
 
 // ExploreWrap is Explore with a caller-defined replay record.
 func ExploreWrap(ctx *xplor.Ctx, net nk.Net, sc Scenario, oracle Oracle, maxStates int, wrap func(Replay) interface{}) {
+	// Build ends with the in-order delivery of the whole tree (non-vacuity check): that is the marked case
+	if n := len(sc.Parents); n > 0 {
+		ctx.Mark(wrap(Replay{sc, seqTo(n - 1), n}))
+	}
 	t, err := Build(net, sc)
 	if err != nil {
 		panic(fmt.Sprintf("scenario %v: %v", sc, err))
@@ -466,6 +470,7 @@ func ExploreWrap(ctx *xplor.Ctx, net nk.Net, sc Scenario, oracle Oracle, maxStat
 			depth = len(hist)
 		}
 		for ev := 1; ev < len(t.Blocks); ev++ {
+			ctx.Mark(wrap(Replay{sc, hist, ev}))
 			_, post, sig, desc, err := RunHistory(t, hist, ev, oracle)
 			if err != nil {
 				panic(err)
